@@ -29,7 +29,7 @@ from props import unitlib as ul
 ID = 'C11'
 PROFILES = ['dev', 'release']
 REPLAY_PROFILES = ['dev', 'release']
-TIME_LIMIT = {'quick': 480, 'thorough': 3000}
+TIME_LIMIT = {'quick': 900, 'thorough': 3000}
 BUDGET = 150
 FIRST_BUDGET = 40
 REPLAY_TIMEOUT = 15
